@@ -452,6 +452,7 @@ func RunC03(c *Ctx, r *Report) {
 	w.siblingRule(r, prefix+"siblings")
 	w.perFunctionRule(r, prefix+"siblings.shared-record")
 	w.completeRule(r, prefix+"complete", "ed")
+	w.nestedDispatchRule(r, prefix+"nested-dispatch")
 	c.akaRules(r, prefix, "roundtrip")
 }
 
@@ -840,4 +841,105 @@ func stripMarkers(cond string) string {
 		}
 	}
 	return strings.Join(out, " && ")
+}
+
+// nestedDispatchRule: a nested record reached through dynamic dispatch (EAP method data behind
+// eap.EAP.EapTypeData) occupies the same octets, under the same conditions, on both sides and in the
+// reference layout. The decoder's "the record is longer than the fixed part" test (a comparison of the
+// record's own length slot with the segment's start) is the wire form of the encoder's "field is set"
+// test and is not a layout condition; any other condition is.
+func (w *slotWorld) nestedDispatchRule(r *Report, rule string) {
+	r.Rule(rule, "a nested record behind an interface-typed field is emitted and stored over the same octet span under the same conditions (presence apart), as in the reference layout", 1)
+	for _, rec := range w.recs {
+		dec, enc, spec := w.dec[rec], w.enc[rec], w.ws.Records[rec]
+		type side struct {
+			seg  *nseg
+			cond string
+		}
+		fields := map[string]*[2]side{}
+		get := func(f string) *[2]side {
+			if fields[f] == nil {
+				fields[f] = &[2]side{}
+			}
+			return fields[f]
+		}
+		lenSlots := map[string]bool{}
+		if enc != nil {
+			for _, l := range enc.Lens {
+				if l.Of == "len(record)" {
+					lenSlots[fmt.Sprintf("slot(%d,%d)", l.Off, l.Octets)] = true
+				}
+			}
+		}
+		if dec != nil {
+			for i := range dec.Segs {
+				s := &dec.Segs[i]
+				if !strings.HasPrefix(s.Field, "call:"+rec+".") {
+					continue
+				}
+				var keep []string
+				for _, p := range strings.Split(s.Cond, " && ") {
+					if p == "" {
+						continue
+					}
+					parts := strings.Split(p, " != ")
+					if len(parts) == 2 && lenSlots[parts[0]] && parts[1] == s.Lo {
+						continue // the tail [Lo:end] is non-empty
+					}
+					keep = append(keep, p)
+				}
+				get(strings.TrimPrefix(s.Field, "call:"))[0] = side{s, strings.Join(keep, " && ")}
+			}
+		}
+		if enc != nil {
+			for i := range enc.Segs {
+				s := &enc.Segs[i]
+				if !strings.HasPrefix(s.Field, "call:"+rec+".") || !strings.HasSuffix(s.Field, ".Marshal()") {
+					continue
+				}
+				get(strings.TrimSuffix(strings.TrimPrefix(s.Field, "call:"), ".Marshal()"))[1] = side{s, s.Cond}
+			}
+		}
+		var names []string
+		for f := range fields {
+			names = append(names, f)
+		}
+		sort.Strings(names)
+		for _, f := range names {
+			d, e := fields[f][0], fields[f][1]
+			key := "nested " + f
+			switch {
+			case d.seg == nil:
+				r.bad(rule, key, e.seg.Pos, "the encoder emits the nested record but the decoder does not store one decoded from the input")
+				continue
+			case e.seg == nil:
+				r.bad(rule, key, d.seg.Pos, "the decoder stores the nested record but the encoder does not emit it")
+				continue
+			}
+			var diffs []string
+			if d.seg.Lo != e.seg.Lo || d.seg.Hi != e.seg.Hi {
+				diffs = append(diffs, fmt.Sprintf("decoder reads [%s : %s], encoder writes [%s : %s]", d.seg.Lo, d.seg.Hi, e.seg.Lo, e.seg.Hi))
+			}
+			if d.cond != e.cond {
+				diffs = append(diffs, fmt.Sprintf("decoder stores it when {%s}, encoder emits it when {%s}", d.cond, e.cond))
+			}
+			if spec != nil {
+				found := false
+				for _, ss := range spec.Segments {
+					if "call:"+strings.TrimPrefix(f, rec+".") != ss.Field {
+						continue
+					}
+					found = true
+					// the reference fixes the span; which packets carry a body at all is decided between the two sides
+					if ss.Lo != d.seg.Lo || ss.Hi != d.seg.Hi || ss.Lo != e.seg.Lo || ss.Hi != e.seg.Hi {
+						diffs = append(diffs, fmt.Sprintf("reference places it at [%s : %s]", ss.Lo, ss.Hi))
+					}
+				}
+				if !found {
+					diffs = append(diffs, "the reference layout has no such nested record")
+				}
+			}
+			r.Check(len(diffs) == 0, rule, key, e.seg.Pos, fmt.Sprintf("[%s : %s] on both sides and in the reference, when {%s} on both sides", e.seg.Lo, e.seg.Hi, e.cond), strings.Join(diffs, "; "))
+		}
+	}
 }
